@@ -435,7 +435,7 @@ fn check_shaped(name: &str, rows: &[Tags], local: &mut Local) {
 // ------------------------------------------------------------------------------ real database
 
 pub fn real_rows() -> Vec<Tags> {
-    let text = std::fs::read_to_string("/repo/tests/defs/defs.zinc").unwrap_or_else(|e| crate::engine::machinery(&format!("defs.zinc: {e}")));
+    let text = std::fs::read_to_string(format!("{}/tests/defs/defs.zinc", crate::engine::repo_dir())).unwrap_or_else(|e| crate::engine::machinery(&format!("defs.zinc: {e}")));
     // parsed by the reference reader, cross-checked against libhaystack's decode
     let refv = crate::model::zinc_ref::read(&text).unwrap_or_else(|e| crate::engine::machinery(&format!("reference reader cannot read defs.zinc: {e}")));
     let libv = libhaystack::encoding::zinc::decode::from_str(&text).unwrap_or_else(|e| crate::engine::machinery(&format!("libhaystack cannot read defs.zinc: {e}")));
